@@ -598,7 +598,7 @@ pub fn plan_for(id: &str, tier: &str) -> Option<Plan> {
         allowlisted_variant: false,
         socket_kinds: vec![],
         socket_every: 8,
-        binary_every: 0,
+        binary_every: if thorough { 6 } else { 16 },
     };
     match id {
         "C01" => {
@@ -644,6 +644,7 @@ pub fn plan_for(id: &str, tier: &str) -> Option<Plan> {
         }
         "C09" => {
             p.property = "C09";
+            p.binary_every = 0;
             p.mon.isolation = true;
             p.compare = Compare::TwoRun;
             p.kinds = vec![Kind::MEM_LIB, Kind::SQL_LIB, Kind::MEM_HTTP, Kind::SQL_HTTP];
@@ -779,6 +780,56 @@ pub fn bulk_chain(n: usize, seed: u64, cov: &mut Cov) -> Option<Found> {
         }
         cov.evaluations += chain.len() as u64;
         cov.hit(format!("bulk-chain:{}-versions:reopen#{round}", if chain.len() > 65_536 { ">65536" } else { ">10000" }));
+    }
+    None
+}
+
+/// C07: one long-lived server object, two clients, more than a thousand accepted versions without a
+/// reopen; every version accepted so far (all of the short chain, a sample of the long one) is re-read
+/// every 100 steps and must still be served with its parent and payload.
+pub fn bulk_two_clients(n: usize, seed: u64, cov: &mut Cov) -> Option<Found> {
+    for kind in [Kind::MEM_LIB, Kind::SQL_LIB, Kind::MEM_HTTP] {
+        let mut subj = Subject::new(kind, Config::default()).ok()?;
+        let a = Rng::new(seed).fork(0xB02A).uuid();
+        let b = Rng::new(seed).fork(0xB02B).uuid();
+        let fail = |m: String| Some(Found { property: "C07".into(), signature: format!("C07:bulk {}", m.split_whitespace().take(6).collect::<Vec<_>>().join(" ")), msg: m, replay: json!({"origin": "bulk-two-clients", "case": 0}) });
+        let mut chain_a: Vec<(Uuid, Uuid, Vec<u8>)> = vec![];
+        let mut chain_b: Vec<(Uuid, Uuid, Vec<u8>)> = vec![];
+        let mut pa = Uuid::nil();
+        for i in 0..3u8 {
+            let data = vec![b'a', i, 7];
+            if let Resp::AddOk { vid, .. } = subj.exec(a, &Req::AddVersion { parent: pa, data: data.clone() }) {
+                chain_a.push((vid, pa, data));
+                pa = vid;
+            }
+        }
+        let mut pb = Uuid::nil();
+        let mut rng = Rng::new(seed).fork(0xB02C);
+        for i in 0..n {
+            let data = format!("b{i}").into_bytes();
+            match subj.exec(b, &Req::AddVersion { parent: pb, data: data.clone() }) {
+                Resp::AddOk { vid, .. } => {
+                    chain_b.push((vid, pb, data));
+                    pb = vid;
+                }
+                o => return fail(format!("AddVersion #{i} on the latest version of the long chain failed on {}: {}", kind.name(), o.short())),
+            }
+            if i % 100 == 99 || i + 1 == n {
+                let mut to_check: Vec<(Uuid, &(Uuid, Uuid, Vec<u8>), &str)> = chain_a.iter().map(|v| (a, v, "short")).collect();
+                for _ in 0..12 {
+                    to_check.push((b, &chain_b[rng.usize(chain_b.len())], "long"));
+                }
+                to_check.push((b, &chain_b[0], "long"));
+                for (c, (vid, parent, data), which) in to_check {
+                    cov.evaluations += 1;
+                    match subj.exec(c, &Req::GetChild { parent: *parent }) {
+                        Resp::Found { vid: v2, parent: p2, data: d2 } if v2 == *vid && p2 == *parent && d2 == *data => {}
+                        o => return fail(format!("on {} (one server object, no reopen), after {} versions were accepted for another client, accepted version {vid} of the {which} chain (parent {parent}, {} bytes) is served as {}", kind.name(), i + 1, data.len(), o.short())),
+                    }
+                }
+            }
+        }
+        cov.hit(format!("bulk-two-clients:{}:{}-versions", kind.name(), if n > 1024 { ">1024" } else { "few" }));
     }
     None
 }
